@@ -344,6 +344,8 @@ def run(ck):
     ck.run_rule("C06.R6e", "string escapes: complete valuation over the ASCII escape letters", 129, rule_escapes)
     from ..rules import route
     ck.run_rule("DIR.route", "data and string directives as statements: operands cooked by annotation, real string pieces ('<n>' characters)", 7, route.rule_route, ("strings", "data"))
+    from . import c16
+    ck.run_rule("C16.R2", "alignment fill and word data inside a repeated body are computed at each copy's own address", 4, c16.rule_R2)
     from ..rules import partial
     ck.run_rule("P1", "'.align 0' and other divisions by program values are guarded", 3, partial.rule_P1)
     from . import c02
